@@ -1,6 +1,6 @@
 #!/bin/bash
 # seedall.sh [jobs]: regression of the whole machinery - every seeded change is applied to a scratch copy of /repo's HEAD and the check of
-# the property it breaks is run against that copy (VERIF_REPO), with evidence, replays and the assembled units redirected (VERIF_OUT,
+# (SEEDS=<regex> restricts the run) the property it breaks is run against that copy (VERIF_REPO), with evidence, replays and the assembled units redirected (VERIF_OUT,
 # VERIF_BUILD), so that it can run next to normal work and several seeds at a time. Prints one line per seed.
 cd /verif
 JOBS=${1:-3}
@@ -17,4 +17,4 @@ run_one() {
   rm -rf $W
 }
 export -f run_one
-ls seeded | xargs -P $JOBS -I{} bash -c 'run_one {}'
+ls seeded | grep -E -- "${SEEDS:-.}" | xargs -P $JOBS -I{} bash -c 'run_one {}'
